@@ -141,7 +141,7 @@ def term_programs(quick):
             for c in (three if not quick else ["", "S", "T", "P"]):
                 for link in ("none", "chan", "cancel"):
                     progs.append(([a, b, c], link, False))
-    for n in (2, 8, 9, 16, 24):
+    for n in (2, 8, 9, 16, 24, 40, 64):
         for kind in ("thread", "proc"):
             progs.append(([str(n)], "burst", kind))
     return progs
